@@ -251,7 +251,14 @@ def run_property(prop, tier, repo="/repo", quiet=False, write_evidence=True, sco
             ctx.violate("EXTRACT", c, "crate", "crate %s: %d functions extracted, floor %d (driver skipped it?)" % (c, got, floor),
                         kind="below-floor")
     mod = importlib.import_module("rules." + prop)
-    mod.rules(ctx)
+    try:
+        mod.rules(ctx)
+    except Exception as e:      # a rule that cannot read the tree in front of it fails closed, it does not crash the check
+        import traceback
+        tb = traceback.extract_tb(e.__traceback__)
+        where = "; ".join("%s:%d %s" % (os.path.basename(fr.filename), fr.lineno, fr.name) for fr in tb[-3:])
+        ctx.violate("ENGINE", prop, "rule-evaluation", "a rule of %s could not be evaluated on this tree (%s: %s at %s): the constructs it reads "
+                    "have changed shape; the rules after it were not run" % (prop, type(e).__name__, e, where), kind="rule-crashed")
     extra = {}
     if tier == "thorough" and hasattr(mod, "thorough"):
         extra = mod.thorough(ctx) or {}
